@@ -3,7 +3,7 @@
    EOpen k = the call of hooks.OnAvailable / OnOnline / OnDemand (which runs the start command),
    EClose k = the call of the closure it returned (which stops it and launches the un-command). *)
 From Coq Require Import List ZArith.
-Require Import MTX.Lib.Trace MTX.Model.PathSM MTX.Proofs.PathSM MTX.Proofs.PathSM_Hooks MTX.Proofs.PathSM_Trace.
+Require Import MTX.Lib.Trace MTX.Model.PathSM MTX.Proofs.PathSM MTX.Proofs.PathSM_Hooks MTX.Proofs.PathSM_Trace MTX.Proofs.PathSM_Logs.
 Import ListNotations.
 Local Open Scope Z_scope.
 
@@ -27,6 +27,25 @@ Theorem C20_closed_after_close : forall cf pre post k,
   conf_ok cf = true -> alternates_closed (cls_call k) (snd (run cf (pre ++ Close :: post))).
 Proof. exact (c20_closed_after_close true). Qed.
 Print Assumptions C20_closed_after_close.
+
+(* the same for what an operator sees: with runOnX configured, the log lines "runOnX command started" /
+   "runOnX command stopped" of pair k alternate along every history, starting with "started" ... *)
+Theorem C20_logs_alternate : forall cf ops k,
+  conf_ok cf = true -> h_start k cf = true -> alternates (cls_log k) (snd (run cf ops)).
+Proof. exact (c20_logs_alternate true). Qed.
+Print Assumptions C20_logs_alternate.
+
+(* ... and the pair is closed once the path has closed *)
+Theorem C20_logs_closed_after_close : forall cf pre post k,
+  conf_ok cf = true -> h_start k cf = true ->
+  alternates_closed (cls_log k) (snd (run cf (pre ++ Close :: post))).
+Proof. exact (c20_logs_closed_after_close true). Qed.
+Print Assumptions C20_logs_closed_after_close.
+
+(* the log lines are exactly the expansion of the hook calls by internal/hooks (no stray line, none missing) *)
+Theorem C20_logs_are_expansion_of_calls : forall cf ops, WE cf (snd (run cf ops)).
+Proof. exact (we_run true). Qed.
+Print Assumptions C20_logs_are_expansion_of_calls.
 
 (* non-vacuity: an on-demand history opens and closes all three pairs *)
 Example C20_example :
